@@ -5,7 +5,7 @@ import itertools
 import re
 
 from .. import AnalysisError
-from ..flow import Flow, walk_no_nested
+from ..flow import Flow
 from ..report import Report
 from ..util import where, mwhere, norm, names_in, call_name, arg
 from ..variants import V
